@@ -279,6 +279,10 @@ func (r *Reconciler) updateInstanceWithCurrentRS(logger logr.Logger, now time.Ti
 			// if the Canary Deployment is not active anymore remove the canary annotations
 			updateDaemonsetAnnotations = clearCanaryAnnotations(newDaemonset)
 		}
+	} else {
+		// No canary strategy (any more): a canary recorded while there was one is over,
+		// its nodes must not stay reserved.
+		newDaemonset.Status.Canary = nil
 	}
 
 	// Check if newDaemonset differs from existing daemonset, and update if so
